@@ -232,7 +232,7 @@ def tr_instancecheck_callable(tree, F):
         # no distinction between plain and coroutine functions
         F['coroTest'] = False
         F['syncReturnChecked'], F['syncRetSubIsDeclared'], F['syncReturnConst'] = ret_test(s.value, RT, W + ' return')
-        F.update(awaitableArgIndex=0, coroutineArgIndex=2, coroOtherResult=False, coroReturnChecked=True, coroRetSubIsDeclared=True)
+        F.update(awaitableArgIndex=0, coroutineArgIndex=2, coroOtherResult=False, coroOtherTopTest=False, coroReturnChecked=True, coroRetSubIsDeclared=True)
         return
     if not (isinstance(s, ast.If) and not s.orelse and is_not(s.test) and call_of(s.test.operand, 'inspect.iscoroutinefunction')
             and is_name(the_arg(s.test.operand, 'func', 0), VALUE)):
@@ -264,7 +264,15 @@ def tr_instancecheck_callable(tree, F):
     if len(s.orelse) != 1: raise Skip(f'{W}: no elif after the Awaitable branch')
     arg2, F['coroutineArgIndex'] = branch(s.orelse[0], 'typing.Coroutine')
     if arg1 != arg2: raise Skip(f'{W}: the two branches assign different names')
-    F['coroOtherResult'] = const_bool(single_return(s.orelse[0].orelse, W + ' other return types'), W + ' other return types')
+    other = single_return(s.orelse[0].orelse, W + ' other return types')
+    # either a constant, or the top-type test `_get_class_of_type_annotation(ret_type) is object` (`object is …`, `==`)
+    if (simple_compare(other) and isinstance(other.ops[0], (ast.Is, ast.Eq))
+            and any(is_name(x, 'object') for x in (other.left, other.comparators[0]))
+            and any(call_of(x, '_get_class_of_type_annotation') and is_name(the_arg(x, 'annotation', 0), RT)
+                    for x in (other.left, other.comparators[0]))):
+        F['coroOtherTopTest'], F['coroOtherResult'] = True, False
+    else:
+        F['coroOtherTopTest'], F['coroOtherResult'] = False, const_bool(other, W + ' other return types')
     i += 1
     # S10: return _is_subtype(sub_type=sig.return_annotation, super_type=arg)
     s = st[i] if i < len(st) else None
@@ -661,9 +669,12 @@ def syncReturnChecked : Bool := {b('syncReturnChecked')}
 def syncReturnConst : Bool := {b('syncReturnConst')}
 def syncRetSubIsDeclared : Bool := {b('syncRetSubIsDeclared')}
 /-- coroutine functions: `base == typing.Awaitable` uses type argument `awaitableArgIndex`, `base == typing.Coroutine` uses
-    `coroutineArgIndex`, every other expected return type returns `coroOtherResult` -/
+    `coroutineArgIndex`, every other expected return type returns the top-type test `_get_class_of_type_annotation(ret_type) is object`
+    (`coroOtherTopTest`: calling a coroutine function yields a coroutine object, which only Any / object describe besides Awaitable /
+    Coroutine) or the constant `coroOtherResult` -/
 def awaitableArgIndex : Nat := {F['awaitableArgIndex']}
 def coroutineArgIndex : Nat := {F['coroutineArgIndex']}
+def coroOtherTopTest : Bool := {b('coroOtherTopTest')}
 def coroOtherResult : Bool := {b('coroOtherResult')}
 def coroReturnChecked : Bool := {b('coroReturnChecked')}
 def coroRetSubIsDeclared : Bool := {b('coroRetSubIsDeclared')}
